@@ -396,7 +396,7 @@ pub fn check_response(req: &[u8], resp: Option<&[u8]>, e: &Expectation, cx: &Ctx
         Stage::TsigError(v) => {
             let no_q_formerr = be(req, 4) == 0 && opcode == 0 && rcode == FORMERR;
             if !no_q_formerr {
-                if rcode != NOTAUTH { return Err(mm("[C10] RCODE for a TSIG that does not authenticate the request", rcode, (NOTAUTH, v))); }
+                if rcode != NOTAUTH { return Err(mm("[C10][C11] RCODE for a TSIG that does not authenticate the request", rcode, (NOTAUTH, v))); }
                 if counts != [0, 0, 0] { return Err(mm("[C10] records in a NOTAUTH response", counts, [0, 0, 0])); }
             }
         }
